@@ -140,8 +140,8 @@ PROPS = {
              "seeded subset of keys already moved (ASK, importing node insists on ASKING), hit by single-key requests and by fragments of split "
              "requests at seeded pipeline positions while all nodes keep reporting the old view; oracle: client gets exactly the final owner's reply "
              "in position, no fragment is redirected more than 16 times; non-trivial = at least one redirect was answered",
-        quick=dict(budget_s=80, profiles=[P("C13", 400)]),
-        thorough=dict(budget_s=1500, profiles=[P("C13", 8000), P("C13", 3000, "moved"), P("C13", 3000, "ask")]),
+        quick=dict(budget_s=80, profiles=[P("C13", 300), P("C13", 150, "mixed")]),
+        thorough=dict(budget_s=1500, profiles=[P("C13", 8000), P("C13", 3000, "moved"), P("C13", 3000, "ask"), P("C13", 6000, "mixed")]),
         reach=["c13_moved", "c13_ask"],
     ),
     "C03": dict(
@@ -163,8 +163,8 @@ PROPS = {
              "oracle by routing, anchored on the first probe reply carrying the final description that the proxy consumed (+3 fake seconds, fair "
              "schedule): writes reach the claiming master, reads only it or its usable replicas, unclaimed slots are refused; "
              "non-trivial = history non-empty and probes were served",
-        quick=dict(budget_s=90, profiles=[P("C14", 150), P("C14", 60, "valid-only"), P("C14", 90, "yield")]),
-        thorough=dict(budget_s=1800, profiles=[P("C14", 6000), P("C14", 2000, "long"), P("C14", 2000, "valid-only"), P("C14", 4000, "yield")]),
+        quick=dict(budget_s=90, profiles=[P("C14", 120), P("C14", 50, "valid-only"), P("C14", 70, "yield"), P("C14", 60, "flap")]),
+        thorough=dict(budget_s=1800, profiles=[P("C14", 6000), P("C14", 2000, "long"), P("C14", 2000, "valid-only"), P("C14", 4000, "yield"), P("C14", 3000, "flap")]),
         reach=["c14_history_steps", "c14_probe_requests_served", "yield_parked_cluster.servers-set", "yield_parked_cluster.before-flag"],
     ),
     "C20": dict(
